@@ -79,8 +79,13 @@ func (e *Engine) invoke(st *State, fnv Value, args []Value, c *ssa.CallCommon, d
 		return
 	}
 	// unknown function value (client callback): unconstrained result
-	st.addTrace(TraceEv{Kind: "callback", Pos: pos, Args: args})
-	k(st, e.havoc(st, resultType(c.Signature()), "cb"))
+	res := e.havoc(st, resultType(c.Signature()), "cb")
+	st.addTrace(TraceEv{Kind: "callback", Pos: pos, Args: args, Extra: res})
+	if e.callbacksWriteDB {
+		// a client callback may itself use the API: the tables are arbitrary afterwards (snapshot kept for contracts)
+		e.havocDB(st, "aftercb")
+	}
+	k(st, res)
 }
 
 func resultType(sig *types.Signature) types.Type {
@@ -563,10 +568,12 @@ func (e *Engine) mapUpdate(st *State, fr *Frame, in *ssa.MapUpdate) bool {
 			if !ok1 {
 				return true
 			}
-			n.Arr = Store(n.Arr, kt.T, e.mapValTerm(st, n, val))
+			vt := e.mapValTerm(st, n, val)
+			n.Arr = Store(n.Arr, kt.T, vt)
 			if n.Has.S != "" {
 				n.Has = Store(n.Has, kt.T, TTrue)
 			}
+			st.addTrace(TraceEv{Kind: "mapupdate", Text: kt.T.S, Pos: e.pos(in.Pos()), Terms: map[string]Term{"k": kt.T, "v": vt}})
 		}
 		st.heap[cell] = n
 	default:
